@@ -76,13 +76,17 @@ class State:
         self.events = []
         self.live = []
         self.zone = {}        # (x, y) -> c   meaning  x - y <= c ; x,y sym ids or 0 for ZERO
+        self.env = {}         # frame id -> {decl id -> value}: local variables are per-path state
         self.av = None        # sym id of 'bytes available at the current cursor of the main input'
+        self.epoch = 0        # incremented whenever the cursor of the main input moves
+        self.req = []         # amounts requested through size()/empty()/require() in this epoch: linear forms (sym id|0, const)
     def copy(self):
         s = State.__new__(State)
         s.heap = {a: (dict(o) if isinstance(o, dict) else list(o)) for a, o in self.heap.items()}
         s.next = self.next; s.facts = {k: list(v) for k, v in self.facts.items()}; s.nsym = self.nsym
         s.trace = list(self.trace); s.viol = list(self.viol); s.events = list(self.events); s.live = list(self.live)
-        s.zone = dict(self.zone); s.av = self.av
+        s.zone = dict(self.zone); s.av = self.av; s.epoch = self.epoch; s.req = list(self.req)
+        s.env = {k: dict(v) for k, v in self.env.items()}
         return s
     def zadd(self, x, y, c):
         if x == y: return
@@ -140,19 +144,38 @@ class State:
             if isinstance(v, Sym):
                 if v.id not in symno: symno[v.id] = len(symno) + 1
                 f = self.facts.get(v.id, [None, None]); return ('S', symno[v.id], f[0], f[1])
-            if isinstance(v, CPtr): return ('P', walk(v.off), 'cur' if v.epoch == getattr(self, 'epoch', 0) else 'stale')
+            if isinstance(v, CPtr): return ('P', walk(v.off), 'cur' if v.epoch == self.epoch else 'stale')
             if isinstance(v, Closure): return ('L', v.usr)
             return vkey(v)
         r = tuple(walk(v) for v in roots)
         if self.av is not None and self.av not in symno: symno[self.av] = 'AV'
+        for (x, c) in self.req:
+            if x and x not in symno: symno[x] = len(symno) + 1000
         z = tuple(sorted(((symno.get(x, 0) if x else 0, symno.get(y, 0) if y else 0, c) for (x, y), c in self.zone.items() if (x == 0 or x in symno) and (y == 0 or y in symno)), key=str))
-        return (r, tuple(out), z, symno.get(self.av))
+        rq = tuple(sorted((((symno.get(x, 0) if x else 0), c) for (x, c) in self.req), key=str))
+        return (r, tuple(out), z, symno.get(self.av), rq)
+
+_frame_serial = [0]
 
 class Frame:
+    """static part of an activation; the variable bindings live in State.env[ fid ] (one copy per path)"""
     def __init__(self, fn, this=None):
-        self.fn = fn; self.env = {}; self.this = this; self.scopes = [[]]
-    def roots(self):
-        return list(self.env.values()) + ([self.this] if self.this is not None else [])
+        _frame_serial[0] += 1
+        self.fid = _frame_serial[0]
+        self.fn = fn; self.this = this; self.scopes = [[]]; self.parent = None; self.pending = {}
+    def key(self): return ('F', self.fid)
+
+class EnvView:
+    """dict-like view of one frame's bindings in one state (keeps the monitors' `f.env[ id ] = v` idiom)"""
+    __slots__ = ('st', 'fid')
+    def __init__(self, st, fid): self.st = st; self.fid = fid
+    def _d(self): return self.st.env.setdefault(self.fid, {})
+    def __getitem__(self, k): return self._d()[k]
+    def __setitem__(self, k, v): self._d()[k] = v
+    def __contains__(self, k): return k in self._d()
+    def get(self, k, dflt=None): return self._d().get(k, dflt)
+    def values(self): return self._d().values()
+    def items(self): return self._d().items()
 
 class Budget(Exception): pass
 class Unmodelled(Exception): pass
@@ -189,7 +212,7 @@ class Exec:
         """loc: ('var', frame, declid) | ('field', addr, name) | ('val', v)"""
         k = loc[0]
         if k == 'val': return loc[1]
-        if k == 'var': return loc[1].env.get(loc[2], Unknown('uninit'))
+        if k == 'var': return st.env.get(loc[1].fid, {}).get(loc[2], Unknown('uninit'))
         if k == 'field':
             o = st.heap.get(loc[1])
             if isinstance(o, dict): return o.get(loc[2], Unknown('field'))
@@ -199,7 +222,7 @@ class Exec:
 
     def store(self, st, loc, v):
         k = loc[0]
-        if k == 'var': loc[1].env[loc[2]] = v
+        if k == 'var': st.env.setdefault(loc[1].fid, {})[loc[2]] = v
         elif k == 'field':
             o = st.heap.get(loc[1])
             if isinstance(o, dict): o[loc[2]] = v
@@ -233,16 +256,18 @@ class Exec:
         k = e['k']
         if k == 'ref':
             d = e['d']
-            if d in fr.env:
-                v = fr.env[d]
+            env = st.env.get(fr.fid, {})
+            if d in env:
+                v = env[d]
                 if isinstance(v, tuple) and v and v[0] == 'refto':   # reference variable bound to a location
                     yield v[1], st; return
                 yield ('var', fr, d), st; return
             # captured variable in lambda frame
             f2 = getattr(fr, 'parent', None)
             while f2 is not None:
-                if d in f2.env:
-                    v = f2.env[d]
+                env2 = st.env.get(f2.fid, {})
+                if d in env2:
+                    v = env2[d]
                     if isinstance(v, tuple) and v and v[0] == 'refto': yield v[1], st; return
                     yield ('var', f2, d), st; return
                 f2 = getattr(f2, 'parent', None)
@@ -618,29 +643,32 @@ class Exec:
 
     def inline(self, fn, ob, av, st, caller, e):
         self.depth += 1
-        if self.depth > 40:
+        if self.depth > 400:
             self.depth -= 1
             raise Unmodelled('inline depth at ' + fn['q'])
         try:
             f = Frame(fn, this=ob)
             self.frames.append(f)
+            env = st.env.setdefault(f.fid, {})
+            if ob is not None: env['__this'] = ob
             params = fn['params']
             for p, a in zip(params, av):
                 if p['t'].endswith('&'):
                     if a[0] == 'loc':
                         loc = a[1]
-                        if loc[0] == 'objref': f.env[p['id']] = loc[1]
-                        elif loc[0] == 'val': f.env[p['id']] = loc[1]
+                        if loc[0] == 'objref': env[p['id']] = loc[1]
+                        elif loc[0] == 'val': env[p['id']] = loc[1]
                         else:
                             v = self.load(st, loc)
-                            if isinstance(v, Obj): f.env[p['id']] = v
-                            else: f.env[p['id']] = ('refto', loc)
-                    else: f.env[p['id']] = a[1]
+                            if isinstance(v, Obj): env[p['id']] = v
+                            else: env[p['id']] = ('refto', loc)
+                    else: env[p['id']] = a[1]
                 else:
-                    f.env[p['id']] = self.argval(a, st)
+                    env[p['id']] = self.argval(a, st)
             if fn['n'] == 'operator()' and isinstance(ob, Closure):
                 f.parent = ob.frame
             for comp in self.run_fn(fn, f, st):
+                comp[-1].env.pop(f.fid, None)       # the activation is over on this path
                 if comp[0] == 'return': yield comp[1], comp[2]
                 elif comp[0] == 'throw': yield Thrown(comp[1]), comp[2]
                 else: yield None, comp[-1]
@@ -650,7 +678,9 @@ class Exec:
 
     def gc(self, st):
         roots = []
-        for f in self.frames: roots.extend(f.roots())
+        for fid, env in st.env.items(): roots.extend(env.values())
+        for f in self.frames:
+            if f.this is not None: roots.append(f.this)
         for o in st.live: roots.append(o[2])
         seen = set(); syms = set(); stack = list(roots)
         while stack:
@@ -665,10 +695,12 @@ class Exec:
             elif isinstance(v, tuple):
                 if v and v[0] in ('cell', 'field') and len(v) > 1 and isinstance(v[1], int): stack.append(Obj(v[1]))
                 stack.extend(v)
-            elif isinstance(v, Closure): stack.extend(v.frame.roots())
+            elif isinstance(v, Closure): stack.extend(st.env.get(v.frame.fid, {}).values())
         for a in list(st.heap):
             if a not in seen: del st.heap[a]
         if st.av is not None: syms.add(st.av)
+        for (x, c) in st.req:
+            if x: syms.add(x)
         # keep relations only between live syms (after closing, so transitive facts survive)
         if st.zone:
             d = st.closure()
@@ -884,22 +916,23 @@ class Exec:
     def exec_decl(self, d, st, fr):
         init = d.get('init')
         if init is None:
-            fr.env[d['id']] = Unknown('uninit') if 'rq' not in d else Unknown('obj')
+            st.env.setdefault(fr.fid, {})[d['id']] = Unknown('uninit') if 'rq' not in d else Unknown('obj')
             yield ('normal', st); return
         if d.get('isref'):
             for loc, s in self.lval(init, st, fr):
-                if loc[0] == 'objref': fr.env[d['id']] = loc[1]
-                elif loc[0] == 'val': fr.env[d['id']] = loc[1]
+                env = s.env.setdefault(fr.fid, {})
+                if loc[0] == 'objref': env[d['id']] = loc[1]
+                elif loc[0] == 'val': env[d['id']] = loc[1]
                 else:
                     v = self.load(s, loc)
-                    fr.env[d['id']] = v if isinstance(v, Obj) else ('refto', loc)
+                    env[d['id']] = v if isinstance(v, Obj) else ('refto', loc)
                 yield ('normal', s)
             return
         for v, s in self.ev(init, st, fr):
             if isinstance(v, Thrown): yield ('throw', v.what, s); continue
             if isinstance(v, Obj) and init.get('k') not in ('construct', 'call', 'initlist') and isinstance(s.heap.get(v.addr), dict) and 'rq' in d:
                 v = Obj(s.alloc(dict(s.heap[v.addr])))   # copy-initialisation from an lvalue
-            fr.env[d['id']] = v
+            s.env.setdefault(fr.fid, {})[d['id']] = v
             self.mon.on_decl(self, s, fr, d, v)
             if d.get('dtor_user') and isinstance(v, Obj):
                 self.register_live(s, fr, v, d['dtor'])
@@ -909,16 +942,14 @@ class Exec:
         k = s['k']
         seen = set()
         def sig(s0):
-            keys = sorted(fr.env)
-            vals = [fr.env[k2] for k2 in keys]
+            env = s0.env.get(fr.fid, {})
+            keys = sorted(env, key=str)
+            vals = [env[k2] for k2 in keys]
             vals = [(v[1] if (isinstance(v, tuple) and v and v[0] == 'refto') else v) for v in vals]
-            vals = [(('loc',) + tuple(x if not isinstance(x, Frame) else id(x) for x in v)) if (isinstance(v, tuple) and v and v[0] in ('var', 'field', 'cell', 'val', 'objref')) else v for v in vals]
-            extra = [fr.this] if fr.this is not None else []
+            vals = [(('loc',) + tuple(x if not isinstance(x, Frame) else x.fid for x in v)) if (isinstance(v, tuple) and v and v[0] in ('var', 'field', 'cell', 'val', 'objref')) else v for v in vals]
             lv = tuple((o[1], o[3]) for o in s0.live)
-            return (tuple(keys), s0.sig(vals + extra + [o[2] for o in s0.live] + self.mon.roots(s0)), lv)
+            return (tuple(keys), s0.sig(vals + [o[2] for o in s0.live] + self.mon.roots(s0)), lv)
         work = []
-        # NOTE: frames are mutable and shared between paths; to keep paths independent we snapshot env per state.
-        def snap(s0): return (s0, dict(fr.env))
         outs = []
         if k == 'For' and s.get('init'):
             starts = [c for c in self.exec(s['init'], st, fr)]
@@ -927,43 +958,43 @@ class Exec:
         try:
             for c in starts:
                 if c[0] != 'normal': yield c; continue
-                work.append((snap(c[1]), k != 'Do'))
+                work.append((c[1], k != 'Do'))
             bounded = False
             c0 = s.get('cond')
             if c0 and c0.get('k') == 'bin' and c0.get('op') in ('!=', '<', '<=') and 'v' in (c0.get('r') or {}): bounded = True
             while work:
-                (s0, env0), check = work.pop()
-                fr.env = dict(env0); self.gc(s0)
+                s0, check = work.pop()
+                self.gc(s0)
+                env0 = s0.env.setdefault(fr.fid, {})
                 if not bounded:
                     for k2, v2 in list(env0.items()):
                         if isinstance(v2, int) and not isinstance(v2, bool) and v2 >= WIDEN:
-                            env0 = dict(env0); env0[k2] = s0.sym(WIDEN, None)
-                fr.env = dict(env0)
+                            # widen the counter to a symbol, keeping the difference relations that hold right now with the
+                            # other symbols (a guess that the fixpoint iteration validates: a relation that is not inductive
+                            # simply disappears from the next loop-head state)
+                            d = s0.closure() if s0.zone or s0.facts else {}
+                            nsym = s0.sym(WIDEN, None)
+                            for (x, y), c in list(d.items()):
+                                if x == 0 and y and y != nsym.id and -c >= v2:      # y >= -c >= v2  =>  nsym - y <= v2 + c <= 0
+                                    s0.zadd(nsym.id, y, v2 + c)
+                            env0[k2] = nsym
                 sg = (sig(s0), check)
                 if sg in seen: continue
                 seen.add(sg)
                 if len(seen) > self.max_loop_states: raise Budget()
-                def body_then(s1, env1):
-                    fr.env = dict(env1)
-                    res = []
-                    for c in self.exec(s['body'], s1, fr):
-                        res.append((c, dict(fr.env)))
-                        fr.env = dict(env1)
-                    return res
-                def after_body(results):
-                    for c, envc in results:
+                def run_body(s1):
+                    for c in list(self.exec(s['body'], s1, fr)):
                         if c[0] in ('normal', 'continue'):
-                            fr.env = dict(envc)
                             if k == 'For' and s.get('inc'):
-                                for _, s3 in self.ev(s['inc'], c[1], fr):
-                                    work.append(((s3, dict(fr.env)), True))
-                                    fr.env = dict(envc)
+                                for v3, s3 in self.ev(s['inc'], c[1], fr):
+                                    if isinstance(v3, Thrown): outs.append(('throw', v3.what, s3))
+                                    else: work.append((s3, True))
                             else:
-                                work.append(((c[1], envc), True))
+                                work.append((c[1], True))
                         elif c[0] == 'break':
-                            fr.env = dict(envc); outs.append((('normal', c[1]), dict(fr.env)))
+                            outs.append(('normal', c[1]))
                         else:
-                            outs.append((c, envc))
+                            outs.append(c)
                 if check:
                     cond = s.get('cond')
                     if cond is None: conds = [(True, s0)]
@@ -973,17 +1004,14 @@ class Exec:
                         conds = []
                         for cv, s1 in self.ev(cond, s0, fr):
                             if isinstance(cv, Thrown):
-                                outs.append((('throw', cv.what, s1), dict(fr.env))); continue
+                                outs.append(('throw', cv.what, s1)); continue
                             for b, s2 in self.truth(cv, s1): conds.append((b, s2))
-                        # env may have been modified by cond evaluation (e.g. c = in.peek_char()); take current
-                    envc = dict(fr.env)
                     for b, s2 in conds:
-                        if b: after_body(body_then(s2, envc))
-                        else: outs.append((('normal', s2), envc))
+                        if b: run_body(s2)
+                        else: outs.append(('normal', s2))
                 else:
-                    after_body(body_then(s0, env0))
-            for c, envc in outs:
-                fr.env = dict(envc)
+                    run_body(s0)
+            for c in outs:
                 yield from self.leave_scope(c, fr, depth)
         finally:
             while len(fr.scopes) >= depth: fr.scopes.pop()
@@ -1016,11 +1044,9 @@ class Exec:
                     if tgt is None: yield ('normal', s1)
                     else: yield from run_from(tgt, s1)
                 else:
-                    envs = dict(fr.env)
                     for i, x in labels:
-                        fr.env = dict(envs)
                         yield from run_from(i, s1.copy())
                     if not any(x['k'] == 'Default' for _, x in labels):
-                        fr.env = dict(envs); yield ('normal', s1.copy())
+                        yield ('normal', s1.copy())
 
 
